@@ -89,6 +89,17 @@ def jobs(tier, seed):
     return js
 
 
+NAMED = [False]
+
+
+def _feat(sf):
+    """every other job: the sensitive feature arrives as a pandas Series that is NAMED like the sample parameter ("sample_weight") - feature names and
+    the internal columns that carry sample parameters must not collide"""
+    import pandas as pd
+
+    return pd.Series(list(sf), name="sample_weight") if NAMED[0] else list(sf)
+
+
 def _calls(fam, fm, groups_labels):
     """list of (name, fn(yt, yp, w_or_None) -> result)"""
     sf = groups_labels
@@ -110,12 +121,12 @@ def _calls(fam, fm, groups_labels):
         def frame(metric, what):
             def f(yt, yp, w, sf):
                 w = ser(w)
-                mf = fm.MetricFrame(metrics=metric, y_true=yt, y_pred=yp, sensitive_features=sf, sample_params=None if w is None else {"sample_weight": w})
+                mf = fm.MetricFrame(metrics=metric, y_true=yt, y_pred=yp, sensitive_features=_feat(sf), sample_params=None if w is None else {"sample_weight": w})
                 return mf.overall if what == "overall" else dict(mf.by_group)
             return f
         return [("MetricFrame(selection_rate).by_group", frame(fm.selection_rate, "by_group")), ("MetricFrame(selection_rate).overall", frame(fm.selection_rate, "overall")),
                 ("MetricFrame(true_positive_rate).by_group", frame(fm.true_positive_rate, "by_group"))]
-    mk = lambda fn, **kw: (lambda yt, yp, w, sf: fn(yt, yp, sensitive_features=sf, **kw, **({} if w is None else {"sample_weight": ser(w)})))
+    mk = lambda fn, **kw: (lambda yt, yp, w, sf: fn(yt, yp, sensitive_features=_feat(sf), **kw, **({} if w is None else {"sample_weight": ser(w)})))
     return [("demographic_parity_difference", mk(fm.demographic_parity_difference)), ("demographic_parity_ratio", mk(fm.demographic_parity_ratio, method="to_overall")),
             ("equalized_odds_difference", mk(fm.equalized_odds_difference)), ("equal_opportunity_ratio", mk(fm.equal_opportunity_ratio)),
             # derived-metric OBJECTS (the generated module-level ones and a user-made one) are called several times per path - weighted, then unweighted:
@@ -149,6 +160,7 @@ def run_job(job, deadline):
     acc = JobAcc(job)
     ks, groups, fam = job["ks"], job["groups"], job["family"]
     n = len(ks)
+    NAMED[0] = bool(sum(job["id"].encode()) % 2)
     # per-decision solver cap: 5 s for the heavy symbolic-weight jobs (an undecided branch is reported as unexplored, never as success)
     core.DECIDE_TIMEOUT_MS = 5000 if (job["mode"] == "scale-w" and fam != "base" and n >= 3) else _DEFAULT_DECIDE_MS
     sf = ["g%d" % g for g in groups]
@@ -217,6 +229,7 @@ def replay(cex):
 
     job, mdl = cex["job"], cex["model"]
     ks, groups, fam = job["ks"], job["groups"], job["family"]
+    NAMED[0] = bool(sum(job["id"].encode()) % 2)
     n = len(ks)
     sf = ["g%d" % g for g in groups]
     rep = [i for i in range(n) for _ in range(ks[i])]
